@@ -189,6 +189,31 @@ def run_psf(part, unit):
         part.violation(PID, 'strehl-not-above-one', 'FFTPSF.strehl_ratio', cond, det, observed=sr, expected='<= 1')
     if sr_ref < 0.99 or clipped:
         part.count('nontrivial')
+    # history on ONE object: view() (2d, 3d-log) then the same reads - the stored PSF is what was computed, not what was drawn
+    if G <= 128 and psf.shape == (G, G):
+        import matplotlib.pyplot as plt
+        orig_show = plt.show
+        plt.show = lambda *a, **k: None
+        psf0 = psf.copy()
+        for hist in (('view',), ('view', 'view-3d-log')):
+            try:
+                if hist[-1] == 'view':
+                    psf_obj.view(num_points=min(32, G))
+                else:
+                    psf_obj.view('3d', True, num_points=min(32, G))
+            finally:
+                plt.close('all')
+            part.transitions += 1
+            part.evals += 1
+            part.count('cmp:psf-after-view')
+            psf1 = np.asarray(psf_obj.psf, float)
+            sr1 = float(psf_obj.strehl_ratio())
+            if psf1.shape != psf0.shape or not np.array_equal(psf1, psf0) or sr1 != sr:
+                part.violation(PID, 'psf-and-strehl-unchanged-by-view', 'FFTPSF.view', cond, dict(det, history=list(hist)),
+                               observed=[float(np.max(np.abs(psf1 - psf0))) if psf1.shape == psf0.shape else list(psf1.shape), sr1],
+                               expected=[0.0, sr])
+                break
+        plt.show = orig_show
     part.outcome(unit['lens'], Hy, nr, G, w, round(sr_ref, 6))
     part.sample(det)
     if w_primary is not None:
